@@ -322,6 +322,62 @@ fn gen_nesting(_ctx: &Ctx, targets: &[Target], thorough: bool, emit: Emit) {
     }
 }
 
+/// Nested AND wide: `depth` containers nested through the first element / first value / first key,
+/// EACH declaring `count` entries, followed by enough filler (`00` = the integer 0) that every
+/// declared count passes a "declared <= remaining bytes" check.  A decoder that pre-allocates per
+/// container from the declared count, without a cumulative budget, requests depth x count slots for
+/// an input of about count bytes — allocation out of proportion although every single header is
+/// individually plausible.
+pub fn nested_wide(shape: &str, depth: usize, count: u64) -> Vec<u8> {
+    let mut v = Vec::new();
+    let head = |major: u8, out: &mut Vec<u8>| {
+        let (info, _) = match count {
+            0..=23 => (count as u8, 0),
+            24..=0xff => (24, 1),
+            0x100..=0xffff => (25, 2),
+            _ => (26, 4),
+        };
+        out.extend_from_slice(&cbor_head(major, info, count));
+    };
+    match shape {
+        "array" => {
+            for _ in 0..depth {
+                head(4, &mut v);
+            }
+        }
+        "map-value" => {
+            for _ in 0..depth {
+                head(5, &mut v);
+                v.push(0x00);
+            }
+        }
+        "map-key" => {
+            for _ in 0..depth {
+                head(5, &mut v);
+            }
+        }
+        _ => {}
+    }
+    let filler = (count as usize).saturating_mul(2) + depth + 8;
+    v.extend(std::iter::repeat(0x00).take(filler));
+    v
+}
+
+fn gen_nested_wide(_ctx: &Ctx, targets: &[Target], thorough: bool, emit: Emit) {
+    let tg = cbor_targets(targets, thorough);
+    let depths: &[usize] = if thorough { &[1, 2, 3, 4, 8, 16, 32, 64, 100, 127, 128, 129, 256] } else { &[2, 8, 64, 127, 128] };
+    let counts: &[u64] = if thorough { &[23, 24, 255, 256, 1000, 4096, 32000, 65535, 65536, 250_000] } else { &[24, 4096, 32000, 65535] };
+    for shape in ["array", "map-value", "map-key"] {
+        for (ti, wrap) in &tg {
+            for &d in depths {
+                for &c in counts {
+                    emit(*ti, &|| wrap(&nested_wide(shape, d, c)));
+                }
+            }
+        }
+    }
+}
+
 fn gen_truncations(_ctx: &Ctx, targets: &[Target], thorough: bool, emit: Emit) {
     let names = by_name(targets);
     for (name, _g, encs) in encodings(thorough, if thorough { 0 } else { 24 }) {
@@ -660,9 +716,10 @@ fn gen_wasm_boundary(_ctx: &Ctx, targets: &[Target], thorough: bool, emit: Emit)
     }
 }
 
-pub static FAMILIES: [Family; 9] = [
+pub static FAMILIES: [Family; 10] = [
     Family { name: "cbor-header-lengths", what: "every CBOR header shape × declared length × tail {none,1,exact} × {top, in array, map value, map key} → every CBOR-consuming target", gen: gen_cbor_header_lengths },
     Family { name: "nesting", what: "nesting depth 2^0..2^15 (quick) / 2^20 (thorough) of arrays, map values, map keys, tags; LE option tags", gen: gen_nesting },
+    Family { name: "nested-wide", what: "depth {2..128} containers nested through first element / value / key, EACH declaring a large count {24..65535}, followed by filler so every declared count fits the remaining bytes → every CBOR-consuming target (cumulative pre-allocation)", gen: gen_nested_wide },
     Family { name: "truncations", what: "every valid encoding of every codec truncated at every length", gen: gen_truncations },
     Family { name: "lying-lengths", what: "u64/u32 (LE; BE too for CBOR codecs) declared-length values written at every offset of valid encodings", gen: gen_lying_lengths },
     Family { name: "cbor-header-rewrite", what: "in every valid encoding of every CBOR codec (ABI value + DTOs, Edict, scene): at every offset of major type 2..5 the header+argument replaced by the same major with every declared length × every width that can carry it, tail kept", gen: gen_cbor_header_rewrite },
